@@ -93,9 +93,38 @@ def execute(case):
                 out["coords"][d] = ints(output["coords_" + rid.lower()])
                 out["pays"][d] = ints(output["payloads_" + rid.lower()])
             for d in range(depth):
+                infos = []
                 for f in output_tensor[d + 1]:
-                    out["fibers"].append(dict(fiber_info(f, desc[d], shape[d], d == depth - 1), d=d + 1,
-                                              nextexp=1 if (d < depth - 1 and desc[d + 1] in ("C", "B")) else 0))
+                    infos.append(dict(fiber_info(f, desc[d], shape[d], d == depth - 1), d=d + 1,
+                                      nextexp=1 if (d < depth - 1 and desc[d + 1] in ("C", "B")) else 0))
+                # the same scans again with all fibers of the rank in progress at once (lock step): every fiber has its own handle interface
+                fs = list(output_tensor[d + 1])
+                scans = [[] for _ in fs]
+                try:
+                    for f in fs:
+                        f.setupSlice(0)
+                    live = list(range(len(fs)))
+                    for _ in range(200):
+                        nxt = []
+                        for k in live:
+                            h = fs[k].nextInSlice()
+                            if h is None:
+                                continue
+                            c = fs[k].handleToCoord(h)
+                            ph = fs[k].handleToPayload(h)
+                            pv = -1
+                            if d == depth - 1 and ph is not None and 0 <= ph < len(fs[k].payloads):
+                                pv = int(fs[k].payloads[ph])
+                            scans[k].append([int(c) if c is not None else -1, int(ph) if isinstance(ph, int) else -1, pv])
+                            nxt.append(k)
+                        live = nxt
+                        if not live:
+                            break
+                except BaseException:  # noqa: B036
+                    scans = [[[-7, -7, -7]] for _ in fs]
+                for info, sc in zip(infos, scans):
+                    info["scan2"] = sc
+                out["fibers"] += infos
     except BaseException as ex:  # noqa: B036
         out["exc"] = "err:" + type(ex).__name__ + ":" + str(ex)[:80]
     return out
